@@ -2298,3 +2298,74 @@ def gen_shape_extreme(quick, thorough):
 # M12: hull iterator model (Query/Hull.v hull_iter / hull_iter_rev) compared order-exactly with convex_hull() / .rev(); clear / clone hooks
 PROPS["C14"]["model"] = True
 PROPS["C14"]["tags"] = PROPS["C14"]["tags"] + ["corr"]
+
+# every `split` operation that returns normally (all four tables, positions and payloads of the new vertices, returned edges, num_constraints)
+PROPS["C13"]["model"] = True
+PROPS["C13"]["tags"] = PROPS["C13"]["tags"] + ["corr"]
+
+def gen_split_m8(quick, thorough):
+    """M8 (found by mutation-testing the model Tri/AddSplit.v): two kinds of add_constraint_and_split inputs that the other generators do not reach.
+    tiny: fans of constraints crossed by one segment, all coordinates integer multiples of 2^-141 / 2^-142 (valid; f64 only: the line iterator
+      does not terminate on such f32 input, a known finding): coordinates of the crossings fall below 2^-142 and mitigate_underflow_for_coordinate
+      rounds them to zero.
+    coarse-mixed: coordinates in [2^52, 2^52 + 64) (f32: 2^23): a horizontal / vertical segment crossing axis-parallel constraints (exactly
+      representable crossings: the split vertex lies on the crossed edge) mixed with slanted ones (crossings at half-integers: the rounded
+      position is off the edge, often outside the neighbouring faces or on an existing vertex): the fallback routine then inserts vertices ON
+      crossed constraint edges, which `insert` itself splits before the routine looks at the edge's end points."""
+    def g(r, tier):
+        out = []
+        for i in range(n_cases(tier, quick, thorough)):
+            tiny = r.chance(0.4)
+            kind, scalar, hint = gen.pick_cfg(r, ("cdt",), 0.0 if tiny else 0.4)
+            c = Case("m8s%d" % i, "cdt", scalar, hint)
+            d = 1
+            if tiny:
+                c.meta = {"style": "split-tiny", "kind": "cdt", "scalar": scalar, "hint": hint}
+                gg = r.choice([3, 4, 6])
+                n = r.range(2, 6)
+                for k in range(n):
+                    x = float(-gg + 2 * k + r.choice([0, 0, 1]))
+                    c.add("adde", bits(x), bits(float(-gg - r.range(0, 2))), d, bits(x + r.choice([0.0, 1.0, -1.0, 2.0])), bits(float(gg + r.range(0, 2))), d + 1)
+                    d += 2
+                c.ins(float(-gg - 3), float(r.range(-1, 1)), d); d += 1
+                c.ins(float(gg + 9), float(r.range(-1, 1)), d); d += 1
+                for _ in range(r.range(0, 4)):
+                    c.ins(float(r.range(-gg, gg)), float(r.range(-gg, gg)), d); d += 1
+                c.add("split", "v%d" % (2 * n), "v%d" % (2 * n + 1))
+                if r.chance(0.4):
+                    c.add("split", "v%d" % r.below(64), "v%d" % r.below(64))
+                scale_case(c, r.choice([-141, -142, -142, -140]))
+            else:
+                c.meta = {"style": "split-coarse-mixed", "kind": "cdt", "scalar": scalar, "hint": hint}
+                off = float(2 ** 23) if scalar == "f32" else float(2 ** 52)
+                sw = r.chance(0.5)
+                def P(x, y):
+                    if sw: x, y = y, x
+                    return (bits(off + 16 + x), bits(off + 16 + y))
+                gg = r.choice([3, 4, 6])
+                n = r.range(2, 5)
+                y0 = r.range(-2, 2)
+                for k in range(n):
+                    x = -gg + 2 * k
+                    if r.chance(0.5):
+                        a = P(x, -gg - r.range(0, 2)); b = P(x, gg + r.range(0, 2))                 # axis-parallel: exact crossing
+                    else:
+                        a = P(x, -gg - r.range(0, 2)); b = P(x + r.choice([1, 1, -1, 3]), gg + r.range(0, 2))
+                    c.add("adde", a[0], a[1], d, b[0], b[1], d + 1)
+                    d += 2
+                a = P(-gg - 3, y0); b = P(-gg + 2 * n + 2, y0 + r.choice([0, 0, 0, 1]))
+                c.add("ins", a[0], a[1], d); d += 1
+                c.add("ins", b[0], b[1], d); d += 1
+                for _ in range(r.range(2, 10)):
+                    q = P(r.range(-gg, -gg + 2 * n), r.range(-3, 4))
+                    c.add("ins", q[0], q[1], d); d += 1
+                if r.chance(0.5):
+                    c.add("split", "v%d" % (2 * n), "v%d" % (2 * n + 1))
+                else:
+                    c.add("split", "v%d" % (2 * n + 1), "v%d" % (2 * n))
+            out.append(c)
+        return out
+    return g
+
+PROPS["C13"]["gen"] = gen_union(PROPS["C13"]["gen"], gen_split_m8(300, 3000))
+
